@@ -16,7 +16,8 @@ MANIFEST = dict(
          "Tie: kind `resub` - a scripted cold source whose n-th subscription plays the n-th outcome (inside Subscribe, or from a goroutine), with event log, "
          "counters and live gauge; model and real operators run on the same cases, trace + log + attempts + live + condition evaluations must be equal; plus a "
          "model-independent oracle (sequential log, closed-form attempt count, forwarded values, terminal) on the implementation result."
-         ' decoy=1: the same operator VALUE applied to a second, counting upstream after the pipeline under test was built - never subscribed, nothing else changes.',
+         ' decoy=1: the same operator VALUE applied to a second, counting upstream after the pipeline under test was built - never subscribed, nothing else changes.'
+         ' tdslow=1: the teardown of every attempt takes a moment and is logged when it has finished - a loop that wakes up on the terminal callback or on the done flag instead of on the end of the teardown overlaps every time (a disagreement must reproduce twice: the listed Wait-window schedule can appear once under scheduler noise).',
     technique="Lean 4 proof (recursive model of each loop = closed-form specification, by induction on the outcome list / condition sequence / count) + differential correspondence",
     ref='5/C15')
 
